@@ -414,7 +414,8 @@ MUTANTS = [
     ("replay-dedupe", RUNNER, "                    self.previous_results += [test_details]", "                    self.previous_results = [r for r in self.previous_results if r[\"name\"] != test_details[\"name\"]]\n                    self.previous_results += [test_details]", "5k"),
     ("stop-status-ignored", NODE, "        stop_statuses_found = {*stop_status} & {*test_statuses}\n        if len(stop_statuses_found) > 0:", "        stop_statuses_found = {*stop_status} & {*test_statuses}\n        if len(stop_statuses_found) > 1:", "1"),
     ("negative-tries-accepted", NODE, "        if max_tries < 0:\n            raise ValueError(\"Number of max_tries cannot be less than zero\")\n", "", "1"),
-    ("replay-default-tries", NODE, "\"max_tries\", 2 if self.params.get(\"replay\") else 1", "\"max_tries\", 1", "1d"),
+    ("replay-default-tries", NODE, "        # ignore the retry parameters for nodes that cannot be re-run (need to run at least once)\n        max_tries = self.params.get_numeric(\n            \"max_tries\", 2 if self.params.get(\"replay\") else 1\n        )",
+     "        max_tries = self.params.get_numeric(\n            \"max_tries\", 1\n        )", "1d"),
     ("config-node-fresh-results", G, "        pre_node.results = list(test_node.results)\n", "", "7"),
     ("update-from-state-no-retry", "intertest_setup.py", "                            flag=lambda self, slot: not self.is_finished(slot)\n                            or self.should_rerun(slot),\n                            skip_children=True,",
      "                            flag=lambda self, slot: not self.is_finished(slot),\n                            skip_children=True,", "12"),
